@@ -29,6 +29,10 @@ func main() {
 			aggCase(cr, s)
 			continue
 		}
+		if r.Chance(1, 60) {
+			dupNamesCase(cr, s)
+			continue
+		}
 		switch k := r.Intn(22); {
 		case k < 8:
 			filterCase(cr, s)
